@@ -167,8 +167,25 @@ func (c *Ctx) normalisedHash() {
 	okRet := true
 	nCached, nFresh := 0, 0
 	var cachedBlocks []*ssa.BasicBlock
+	// every value the function can return, with the block it comes from: one return per case, or one return of a
+	// result variable assigned on each path (a phi: its edges are the cases)
+	type retCase struct {
+		v  ssa.Value
+		at *ssa.BasicBlock
+	}
+	var cases []retCase
 	for _, r := range returnsOf(f) {
 		v := retVal(r, 0)
+		if phi, ok := v.(*ssa.Phi); ok && phi.Block() == r.Block() {
+			for i, e := range phi.Edges {
+				cases = append(cases, retCase{e, phi.Block().Preds[i]})
+			}
+			continue
+		}
+		cases = append(cases, retCase{v, r.Block()})
+	}
+	for _, rc := range cases {
+		v := rc.v
 		switch {
 		case derivesFrom(v, func(x ssa.Value) bool {
 			cl := callOf(x)
@@ -177,7 +194,7 @@ func (c *Ctx) normalisedHash() {
 			nFresh++
 		case derivesFrom(v, func(x ssa.Value) bool { _, fn, ok := fieldOf(x); return ok && fn == "hash" }, false):
 			nCached++
-			cachedBlocks = append(cachedBlocks, r.Block())
+			cachedBlocks = append(cachedBlocks, rc.at)
 		default:
 			okRet = false
 		}
